@@ -53,6 +53,22 @@ MODELS = {
     '@__cxa_allocate_exception': dict(c='vp_cxa_allocate_exception', kind='pure'),
     '@__cxa_free_exception': dict(c='vp_cxa_free_exception', kind='pure'),
     '@__cxa_throw': dict(c='vp_cxa_throw', kind='pure'),
+    '@_ZNSt12out_of_rangeC1EPKc': dict(c='vp_exc_ctor', kind='pure'), '@_ZNSt12out_of_rangeC1ERKNSt7__cxx1112basic_stringIcSt11char_traitsIcESaIcEEE': dict(c='vp_exc_ctor', kind='pure'),
+    '@_ZNSt12out_of_rangeC2EPKc': dict(c='vp_exc_ctor', kind='pure'), '@_ZNSt12out_of_rangeC2ERKNSt7__cxx1112basic_stringIcSt11char_traitsIcESaIcEEE': dict(c='vp_exc_ctor', kind='pure'),
+    '@_ZNSt11logic_errorC1EPKc': dict(c='vp_exc_ctor', kind='pure'), '@_ZNSt11logic_errorC1ERKNSt7__cxx1112basic_stringIcSt11char_traitsIcESaIcEEE': dict(c='vp_exc_ctor', kind='pure'),
+    '@_ZNSt11logic_errorC2EPKc': dict(c='vp_exc_ctor', kind='pure'), '@_ZNSt11logic_errorC2ERKNSt7__cxx1112basic_stringIcSt11char_traitsIcESaIcEEE': dict(c='vp_exc_ctor', kind='pure'),
+    '@_ZNSt13runtime_errorC1EPKc': dict(c='vp_exc_ctor', kind='pure'), '@_ZNSt13runtime_errorC1ERKNSt7__cxx1112basic_stringIcSt11char_traitsIcESaIcEEE': dict(c='vp_exc_ctor', kind='pure'),
+    '@_ZNSt13runtime_errorC2EPKc': dict(c='vp_exc_ctor', kind='pure'), '@_ZNSt13runtime_errorC2ERKNSt7__cxx1112basic_stringIcSt11char_traitsIcESaIcEEE': dict(c='vp_exc_ctor', kind='pure'),
+    '@_ZNSt16invalid_argumentC1EPKc': dict(c='vp_exc_ctor', kind='pure'), '@_ZNSt16invalid_argumentC1ERKNSt7__cxx1112basic_stringIcSt11char_traitsIcESaIcEEE': dict(c='vp_exc_ctor', kind='pure'),
+    '@_ZNSt16invalid_argumentC2EPKc': dict(c='vp_exc_ctor', kind='pure'), '@_ZNSt16invalid_argumentC2ERKNSt7__cxx1112basic_stringIcSt11char_traitsIcESaIcEEE': dict(c='vp_exc_ctor', kind='pure'),
+    '@_ZNSt12length_errorC1EPKc': dict(c='vp_exc_ctor', kind='pure'), '@_ZNSt12length_errorC1ERKNSt7__cxx1112basic_stringIcSt11char_traitsIcESaIcEEE': dict(c='vp_exc_ctor', kind='pure'),
+    '@_ZNSt12length_errorC2EPKc': dict(c='vp_exc_ctor', kind='pure'), '@_ZNSt12length_errorC2ERKNSt7__cxx1112basic_stringIcSt11char_traitsIcESaIcEEE': dict(c='vp_exc_ctor', kind='pure'),
+    '@_ZNSt12domain_errorC1EPKc': dict(c='vp_exc_ctor', kind='pure'), '@_ZNSt12domain_errorC1ERKNSt7__cxx1112basic_stringIcSt11char_traitsIcESaIcEEE': dict(c='vp_exc_ctor', kind='pure'),
+    '@_ZNSt12domain_errorC2EPKc': dict(c='vp_exc_ctor', kind='pure'), '@_ZNSt12domain_errorC2ERKNSt7__cxx1112basic_stringIcSt11char_traitsIcESaIcEEE': dict(c='vp_exc_ctor', kind='pure'),
+    '@_ZNSt11range_errorC1EPKc': dict(c='vp_exc_ctor', kind='pure'), '@_ZNSt11range_errorC1ERKNSt7__cxx1112basic_stringIcSt11char_traitsIcESaIcEEE': dict(c='vp_exc_ctor', kind='pure'),
+    '@_ZNSt11range_errorC2EPKc': dict(c='vp_exc_ctor', kind='pure'), '@_ZNSt11range_errorC2ERKNSt7__cxx1112basic_stringIcSt11char_traitsIcESaIcEEE': dict(c='vp_exc_ctor', kind='pure'),
+    '@_ZNSt14overflow_errorC1EPKc': dict(c='vp_exc_ctor', kind='pure'), '@_ZNSt14overflow_errorC1ERKNSt7__cxx1112basic_stringIcSt11char_traitsIcESaIcEEE': dict(c='vp_exc_ctor', kind='pure'),
+    '@_ZNSt14overflow_errorC2EPKc': dict(c='vp_exc_ctor', kind='pure'), '@_ZNSt14overflow_errorC2ERKNSt7__cxx1112basic_stringIcSt11char_traitsIcESaIcEEE': dict(c='vp_exc_ctor', kind='pure'),
     '@__cxa_rethrow': dict(c='vp_cxa_rethrow', kind='pure'),
     '@__cxa_begin_catch': dict(c='vp_cxa_begin_catch', kind='pure'),
     '@__cxa_end_catch': dict(c='vp_cxa_end_catch', kind='pure'),
@@ -79,6 +95,7 @@ MODELS = {
     '@memcmp': dict(c='vp_memcmp', kind='mem'), '@strlen': dict(c='vp_strlen', kind='mem'),
     '@memchr': dict(c='vp_memchr', kind='mem'), '@strcmp': dict(c='vp_strcmp', kind='mem'),
     '@bcmp': dict(c='vp_memcmp', kind='mem'),
+    '@_ZNSt7__cxx1112basic_stringIcSt11char_traitsIcESaIcEE9_M_createERmm': dict(c='vp_string_create', kind='pure'),
     # harness API (vp.h)
     '@vp_assert': dict(kind='assert'), '@vp_assume': dict(kind='assume'),
     '@vp_nondet_int': dict(c='vp_nondet_int', kind='pure'), '@vp_nondet_bool': dict(c='vp_nondet_bool', kind='pure'),
